@@ -365,6 +365,12 @@ def write_evidence(prop: str, tier: str, seed: int, level: str, coverage: dict, 
         json.dump(doc, f, indent=1, default=_json_default)
         f.write("\n")
     os.replace(tmp, path)
+    # a per-tier copy, so that a quick run does not erase what the last thorough run covered
+    tdir = os.path.join(EVIDENCE_DIR, "by-tier", tier)
+    os.makedirs(tdir, exist_ok=True)
+    with open(os.path.join(tdir, f"{prop}.json"), "w") as f:
+        json.dump(doc, f, indent=1, default=_json_default)
+        f.write("\n")
     return path
 
 
